@@ -46,6 +46,7 @@ var (
 	flagPrefix   = flag.String("path", "", "run a single path (debug): decision list k:v,k:v")
 	flagEvidence = flag.Bool("evidence", false, "write /verif/evidence/<prop>.json and print verdict lines")
 	flagSeed     = flag.Int("seed", 0, "VERIF_SEED (orders exploration only)")
+	flagLearn    = flag.String("learn", "", "write candidate known-finding regions (cells of concrete facts) to this file")
 	flagCross    = flag.Bool("cross", false, "re-run harness verdict queries on z3-new and cvc5 (thorough)")
 )
 
@@ -94,6 +95,16 @@ func main() {
 	debug.SetGCPercent(400)
 	t0 := time.Now()
 	re := regexp.MustCompile("^VerifH_" + *flagProp + "_")
+	if b, err := os.ReadFile(filepath.Join(*flagVerif, "harness", "props.json")); err == nil && *flagProp != "" {
+		var pm map[string][]string
+		if err := json.Unmarshal(b, &pm); err != nil {
+			fmt.Fprintln(os.Stderr, "props.json:", err)
+			os.Exit(2)
+		}
+		if hs, ok := pm[*flagProp]; ok && len(hs) > 0 {
+			re = regexp.MustCompile("^(" + strings.Join(hs, "|") + ")$")
+		}
+	}
 	if *flagRun != "" {
 		re = regexp.MustCompile(*flagRun)
 	}
@@ -138,6 +149,7 @@ func main() {
 		}
 		e.known = known
 		e.tier = *flagTier
+		e.prop = *flagProp
 		execs = append(execs, e)
 	}
 	sort.Slice(harnesses, func(i, j int) bool { return harnesses[i].Name() < harnesses[j].Name() })
@@ -169,6 +181,9 @@ func main() {
 		os.Stdout.Write(b)
 	}
 	summarize(out)
+	if *flagLearn != "" {
+		writeLearned(*flagLearn)
+	}
 	if *flagEvidence {
 		os.Exit(writeEvidence(out, known, *flagSeed))
 	}
@@ -194,7 +209,7 @@ func summarize(out *RunOutput) {
 			}
 		}
 		for _, v := range h.Violations {
-			fmt.Printf("  violation %s inputs=%v confirmed=%v native=%q %s\n", v.Assert, v.Inputs, v.Confirmed, v.NativeOutcome, v.Msg)
+			fmt.Printf("  violation %s inputs=%v confirmed=%v native=%q events=%v %s\n", v.Assert, v.Inputs, v.Confirmed, v.NativeOutcome, v.NativeEvents, firstLine(v.Msg))
 		}
 		for _, m := range h.ReplayBad {
 			fmt.Printf("  replay mismatch: %s\n", m)
@@ -519,8 +534,48 @@ func (e *Exec) finishPath(outcome string) {
 	if len(res.Samples) < 3 {
 		res.Samples = append(res.Samples, map[string]interface{}{"inputs": inputs, "events": evs, "outcome": outcome, "decisions": len(e.trace), "notes": e.notes})
 	}
-	if len(res.Replays) < e.replayN && !e.mapArb {
+	if len(res.Replays) < e.replayN && !e.mapArb && !e.approx {
 		res.Replays = append(res.Replays, rc)
 	}
 	res.mu.Unlock()
+}
+
+func writeLearned(path string) {
+	type entry struct {
+		Harness string   `json:"harness"`
+		Assert  string   `json:"assert"`
+		Region  string   `json:"region"`
+		Mixed   []string `json:"mixed_cells,omitempty"`
+		Cells   int      `json:"cells"`
+	}
+	var out []entry
+	keys := make([]string, 0, len(learned))
+	for k := range learned {
+		keys = append(keys, k)
+	}
+	sort.Strings(keys)
+	for _, k := range keys {
+		hp := strings.SplitN(k, "|", 2)
+		var cells, mixed []string
+		for c, n := range learned[k] {
+			if n[0] > 0 {
+				cells = append(cells, c)
+				if n[1] > 0 {
+					mixed = append(mixed, fmt.Sprintf("%s violated=%d proved=%d", c, n[0], n[1]))
+				}
+			}
+		}
+		if len(cells) == 0 {
+			continue
+		}
+		sort.Strings(cells)
+		sort.Strings(mixed)
+		region := cells[0]
+		if len(cells) > 1 {
+			region = "(or " + strings.Join(cells, " ") + ")"
+		}
+		out = append(out, entry{Harness: hp[0], Assert: hp[1], Region: region, Mixed: mixed, Cells: len(cells)})
+	}
+	b, _ := json.MarshalIndent(out, "", " ")
+	os.WriteFile(path, b, 0644)
 }
